@@ -903,13 +903,19 @@ class Ctx(object):
                 self.trace.append('lemma sum_nonneg applied automatically') if 'lemma sum_nonneg applied automatically' not in self.trace else None
         if const is None:
             return inner
-        return SV(const * inner.t)
+        r = SV(const * inner.t)
+        self.__dict__.setdefault('sum_alias', []).append((r, const, inner))
+        return r
 
     def find_sum(self, term):
+        """-> (record, constant factor) for a sum term (possibly const*sum after automatic linearity)"""
         for s in self.sums:
             if s['term'] is term or (isinstance(term, SV) and s['term'].t.eq(term.t)):
-                return s
-        return None
+                return s, 1
+        for r, const, inner in self.__dict__.get('sum_alias', []):
+            if r is term or (isinstance(term, SV) and r.t.eq(term.t)):
+                return self.find_sum(inner)[0], SV(const)
+        return None, None
 
     def sum_lemma(self, name, parts, F, rel='==', extra_const=0, inst=()):
         """linear-sum lemma (DESIGN 2.5).  parts = [(coef, sumterm)], all sums over the same n.
@@ -917,10 +923,10 @@ class Ctx(object):
         Conclusion (assumed after the side VC is proved):  sum_k coef_k*S_k  rel  F(n)-F(0)."""
         recs = []
         for coef, st in parts:
-            r = self.find_sum(st)
+            r, k = self.find_sum(st)
             if r is None:
                 raise Unsupported('sum_lemma: term is not a registered sum')
-            recs.append((coef, r))
+            recs.append((mul(coef, k), r))
         n = recs[0][1]['n']
         for _, r in recs[1:]:
             if not (zterm(r['n']).eq(zterm(n))):
